@@ -398,17 +398,32 @@ def formula_cols(snap):
   return out
 
 
+def summary_table_ids(snap):
+  out = set()
+  if '_grist_Tables' in snap:
+    rids, cols = snap['_grist_Tables']
+    for tid, src in zip(cols.get('tableId', []), cols.get('summarySourceTable', [])):
+      if src:
+        out.add(tid)
+  return out
+
+
 def trace_kind(S0, S1):
   """Classify a difference between the state before a failed bundle and after it."""
   d = snapshot.diff(S0, S1, maxn=40)
   if not d:
     return None, d
   fc = formula_cols(S0)
+  # Summary tables are derived as a whole: their rows are created and removed by recalculation, so a
+  # difference in their row sets or cells is a difference in calculated state, like a formula cell.
+  derived = summary_table_ids(S0) & summary_table_ids(S1)
   only_formula = True
   for t in set(S0) | set(S1):
     if t not in S0 or t not in S1:
       only_formula = False
       break
+    if t in derived:
+      continue
     if S0[t][0] != S1[t][0]:
       only_formula = False
       break
@@ -441,8 +456,10 @@ class SchemaMonitor(Monitor):
 class NoTraceMonitor(Monitor):
   """C04 (natural failures): a bundle that raised leaves no trace and the engine stays usable."""
   MUTATES = True
-  def __init__(self, count_cases=True):
+  def __init__(self, count_cases=True, classify=None):
+    # classify(default_mech, Sa, Sb) -> mechanism key of an open finding, or None
     self.count_cases = count_cases
+    self.classify = classify
 
   def check_after_failure(self, h, S0, S1, bundle, how, site=None):
     """Shared no-trace oracle. Returns the snapshot to continue from."""
@@ -468,7 +485,10 @@ class NoTraceMonitor(Monitor):
         # rollback recalculated them. The no-trace comparison is void for this case (DESIGN.md 3.6).
         h.acc.count('prestate_not_a_fixpoint')
       elif d2:
-        h.violation('trace_formula_persistent:' + how, 'formula cells changed by failed bundle %s stay changed after '
+        mech = 'trace_formula_persistent:' + how
+        if self.classify:
+          mech = self.classify('undo_diff', None, d2, S0, S2) or mech
+        h.violation(mech, 'formula cells changed by failed bundle %s stay changed after '
                     'Calculate: %s' % (action_kinds(bundle), d2[:3]), dict(detail, diff_after_calculate=d2[:10]))
       else:
         h.violation('formula_values_stale_after_rollback', 'failed bundle %s (%s) left formula cells changed until the '
